@@ -284,7 +284,9 @@ func c15Run(env *fw.Env, c c15Case) fw.Result {
 	}
 	m := c15Interpret(es)
 	var uerr error
-	panicked, pv := fw.Try(func() { uerr = slug.Unpack(bytes.NewReader(data), dst) })
+	dstArg, restore := spelledDir(dst, fw.HashString(entriesKey(c.Entries)+c.Format))
+	panicked, pv := fw.Try(func() { uerr = slug.Unpack(bytes.NewReader(data), dstArg) })
+	restore()
 	// non-triviality: >=2 entries touching one path, child before parent, or explicit format
 	seen := map[string]int{}
 	childFirst := false
